@@ -515,7 +515,7 @@ func checkC16(p *Prog, r *Report) {
 				if ix, ok := unparen(as.Lhs[0]).(*ast.IndexExpr); ok {
 					idx, _ := p.ConstVal(ix.Index)
 					sh := "0"
-					ast.Inspect(as.Rhs[0], func(x ast.Node) bool {
+					p.inspectThroughLocals(w, as.Rhs[0], func(x ast.Node) bool {
 						if b, ok := x.(*ast.BinaryExpr); ok && b.Op == token.SHR {
 							sh, _ = p.ConstVal(b.Y)
 						}
@@ -529,7 +529,7 @@ func checkC16(p *Prog, r *Report) {
 		walkBody(rd, func(n ast.Node) bool {
 			if b, ok := n.(*ast.BinaryExpr); ok && b.Op == token.SHL {
 				var idx string
-				ast.Inspect(b.X, func(x ast.Node) bool {
+				p.inspectThroughLocals(rd, b.X, func(x ast.Node) bool {
 					if ix, ok := x.(*ast.IndexExpr); ok {
 						idx, _ = p.ConstVal(ix.Index)
 					}
